@@ -461,6 +461,30 @@ pub fn c16_cases(rng: &mut Rng, tier: &str) -> (Vec<Case>, bool) {
             cases.push(case_from(w, checks, "targeted".into(), true, t.replace('\n', " | ")));
         }
     }
+    // stopped exactly at / just below the cap, then one more frame from the PROMPT (the suspended program's frames are kept
+    // at a breakpoint): GOSUB and FN calls typed in direct mode meet the same cap
+    for depth in [30usize, 31, 32] {
+        for probe in ["GOSUB 100", "PRINT FNA(1)", "GOSUB 100 : PRINT 2", "X = FNA(FNA(1))"] {
+            let mut w = Walk::new(false, false);
+            for l in ["5 DEF FNA(X) = X + 1".to_string(), "10 D = D + 1".to_string(), format!("20 IF D < {} THEN GOSUB 10", depth + 1), "30 STOP".to_string(), "40 RETURN".to_string(), "100 RETURN".to_string()] {
+                w.start(&l);
+            }
+            w.start("RUN");
+            let mut nr = 0;
+            w.drive(&[], &mut nr, 400, false);
+            w.op("snap");
+            w.start(probe);
+            let pi = w.last();
+            let mut nr = 0;
+            w.drive(&[], &mut nr, 10, true);
+            w.op("snap");
+            let mut checks: Vec<String> = vec!["snap-caps".into(), "err-then-idle".into()];
+            if depth == 32 && !probe.starts_with("X =") {
+                checks.push(format!("reply-starts {} err_OutOfMemory.StackOverflow", pi));
+            }
+            cases.push(case_from(w, checks, "cap-from-the-prompt".into(), true, format!("stopped {} GOSUBs deep, then {}", depth, probe)));
+        }
+    }
     let opts = GenOpts::default();
     for _ in 0..n {
         let steps = rng.range(10, 80);
@@ -1034,6 +1058,34 @@ pub fn c09_cases(rng: &mut Rng, tier: &str) -> (Vec<Case>, bool) {
         }
         cases.push(case_from(w, checks, feature_tag(&p), true, p.text().replace('\n', " | ")));
     }
+    // statement counts that are known in advance: every one of them costs a host call, whatever the statements are
+    // (an empty FOR/NEXT on one line, a multi-statement line typed at a breakpoint, a chain of THEN <line> jumps)
+    let counted: &[(&[&str], &[&str], usize)] = &[
+        (&["10 FOR I = 1 TO 20 : NEXT I", "20 PRINT I"], &["RUN"], 22),
+        (&["10 FOR I = 20 TO 1 STEP -1 : NEXT I : PRINT I"], &["RUN"], 22),
+        (&["10 FOR I = 1 TO 5 : FOR J = 1 TO 4 : NEXT J : NEXT I"], &["RUN"], 31),
+        (&["10 STOP", "20 END"], &["RUN", "PRINT \"X\";5 : A = 1 : B = 2 : PRINT \"Y\";7"], 5),
+        (&["10 GOSUB 100", "20 END", "100 STOP", "110 RETURN"], &["RUN", "A = 1 : A = A + 1 : A = A + 1 : PRINT A", "FOR K = 1 TO 6 : NEXT K : PRINT K"], 14),
+        (&["10 IF 1 THEN 20", "20 IF 1 THEN 30", "30 IF 1 THEN 40", "40 IF 1 THEN 50", "50 PRINT 5"], &["RUN"], 5),
+        (&["10 GOTO 20", "20 DATA 1", "21 DATA 2", "22 DATA 3", "23 DATA 4", "30 GOTO 40", "40 PRINT 4"], &["RUN"], 7),
+    ];
+    for (prog, typed, want) in counted {
+        for (ww, tt) in [(false, false), (false, true)] {
+            let mut w = Walk::new(ww, tt);
+            for l in prog.iter() {
+                w.start(l);
+            }
+            let a = w.ops.len();
+            for t in typed.iter() {
+                w.start(t);
+                let mut nr = 0;
+                w.drive(&[], &mut nr, 200, false);
+            }
+            let b = w.last();
+            w.op("snap");
+            cases.push(case_from(w, vec![format!("turns-at-least {}-{} {}", a, b, want), "calls-bounded 2".into()], "counted-statements".into(), true, format!("{} || {}", prog.join(" | "), typed.join(" | "))));
+        }
+    }
     (cases, false)
 }
 
@@ -1041,6 +1093,9 @@ const PURE_INSPECTIONS: &[&str] = &[
     "PRINT X", "PRINT A$; B$", "PRINT I; J", "PRINT 1/0", "PRINT \"x\" + 1", "REM look", "PRINT X + Y * 2", "PRINT (1", "? N", ":",
     "PRINT FNA(3)", "PRINT FNA(\"s\")", "PRINT FNQ(1) + 1/0", "PRINT NOSUCH", "PRINT RND(0)", "PRINT ABS(-1); INT(2.5)",
     "PRINT FNR(1)", "PRINT FNR(X) + 1", "PRINT FNS(2)", "PRINT ((((((((((((((((((((((((((((((((((((((((((((((((((1))))))))))))))))))))))))))))))))))))))))))))))))))",
+    // statements that are refused or do nothing at the prompt: a DEF typed in direct mode (ILLEGAL DIRECT) for a function the
+    // program defines, with other parameter names; END reached by an immediate line
+    "DEF FNA(ZZ) = 1", "DEF FNR(Q) = 5", "DEF FNS(A, B) = 1", "DEF FNB(X1) = X1", "END", "IF 1 THEN END",
 ];
 
 /// break + CONT at random turn boundaries, with side-effect-free inspection, vs the uninterrupted run
